@@ -10,7 +10,7 @@ from ..grammar import schema
 from ..interp import Pins, find_nodes, unparse
 from ..kinds import Kinds
 from ..model import AnalysisError
-from .util import enclosing_loop, enclosing_stmt, every_iteration_reaches, fmt, is_const, parent, returns_of, same, self_attr_for_param, single_def
+from .util import enclosing_loop, enclosing_stmt, every_iteration_reaches, fmt, is_const, parent, returns_of, same, self_attr_for_param, single_def, ancestors
 
 P = ("C09", "C01")
 CLS = "unused:UnusedTranslator"
@@ -81,6 +81,39 @@ def r_usage_scan(ck: Checker) -> None:
                 ok = ok or (f"Predicate({stm}.name, {stm}.arity)" in key and arg in (f"range(0,{stm}.arity)", f"range({stm}.arity)"))
         ck.add(f"{kind}: all positions used", ok and bool(adds), func, loops[0], f"used_positions[Predicate({stm}.name, {stm}.arity)].update(range(0, {stm}.arity)) and used.add: {ok and bool(adds)}",
                "predicates named in #show/#project signatures keep all their arguments")
+
+
+def r_position_usage(ck: Checker) -> None:
+    """_add_usage_stm: every argument position of every function term counts as used unless the argument IS `_`"""
+    func = ck.func(f"{CLS}._add_usage_stm")
+    adds = [c for c in attr_calls(func, "add") if unparse(c.func.value).startswith("self.used_positions[")]  # type: ignore[attr-defined]
+    ck.need(len(adds) == 1, "_add_usage_stm records used positions at one site")
+    site = adds[0]
+    lp = enclosing_loop(func, site)
+    ck.need(lp is not None and isinstance(lp.target, ast.Tuple) and len(lp.target.elts) == 2, "positions are scanned with enumerate(<arguments>)")
+    idx, arg = [unparse(e) for e in lp.target.elts]  # type: ignore[union-attr]
+    # the only thing between the loop head and the recording is the test `arg != _` (no other statement that could leave
+    # the iteration, no further condition)
+    conds_ = []
+    child_ = enclosing_stmt(func, site)
+    plain = True
+    for anc in ancestors(func, child_):
+        if anc is lp:
+            break
+        if isinstance(anc, ast.If):
+            in_body = any(s is child_ or any(x is child_ for x in ast.walk(s)) for s in anc.body)
+            conds_.append(unparse(anc.test) if in_body else f"not ({unparse(anc.test)})")
+            plain = plain and anc.body[0] is child_ if in_body else False
+        elif not isinstance(anc, (ast.For, ast.expr)):
+            plain = False
+        child_ = anc if isinstance(anc, ast.stmt) else child_
+    first_ = lp.body[0] is child_ or all(isinstance(s, (ast.Assign, ast.AnnAssign)) for s in lp.body[: [i for i, s in enumerate(lp.body) if s is child_][0]]) if any(s is child_ for s in lp.body) else False  # type: ignore[union-attr]
+    okp = plain and first_ and len(conds_) == 1 and (same(conds_[0], f"{arg} != self._anon") or same(conds_[0], f"self._anon != {arg}"))
+    ck.add("a position whose argument is not the anonymous variable itself is recorded as used", okp and unparse(site.args[0]) == idx, func, site, f"the recording of `{unparse(site.args[0])}` is guarded by {conds_} only: {okp}",
+           "`holds(open(_))` still matches only atoms whose argument is an `open(..)` term: treating a term that contains only `_` as unused drops the position and with it the pattern")
+    outer = enclosing_loop(func, lp)
+    ok_o = outer is not None and unparse(outer.iter).replace('"', "'") == f"collect_ast({func.params()[1]}, 'Function')"
+    ck.add("all function terms of the node are scanned (nested ones too)", ok_o, func, lp, f"outer loop over `{unparse(outer.iter) if outer is not None else None}`", "")
 
 
 def r_interface_used(ck: Checker) -> None:
@@ -328,6 +361,11 @@ def r_convert(ck: Checker) -> None:
         good = same(unparse(init), f"set(collect_ast({args}, 'Variable'))")
     # every head variable of the copy rule is replaced in every argument: no early exit from the substitution loops
     subst = [c for c in calls_in(func, lambda c: unparse(c.func) == "partial" and bool(c.args)) if c is not binds[0]]
+    if not subst:
+        # no pairwise callback at all: e.g. one simultaneous substitution through dict(zip(heads, arguments))
+        ck.add("every head variable is substituted in every argument of the copied atom", False, func, func.node, "no `partial(replace, old=<head variable>, new=<argument>)` applied pair by pair",
+               "head variables of a copy rule may repeat (`link(X,X) :- arc(X,loop).`, known finding A-02): a dictionary built from the pairs keeps the LAST argument for a repeated variable, the pairwise substitution the first - `link(A,_)` becomes `arc(_,loop)` and the join on A is lost")
+        return
     ck.need(len(subst) == 1, "convert substitutes head variables with one partial(...) callback")
     inner = enclosing_loop(func, subst[0])
     outer = enclosing_loop(func, inner) if inner is not None else None
@@ -347,6 +385,7 @@ def r_convert(ck: Checker) -> None:
 
 RULES = [
     Rule("C09.EXHAUST.usage", P, r_usage_scan, extra={"C07": ("body of External", "body of Edge", "body of Heuristic", "body of ProjectAtom")}),
+    Rule("C09.position-usage", P, r_position_usage),
     Rule("C09.F2.interface", P + ("C07",), r_interface_used),
     Rule("C09.F.transform", P, r_transform, extra={"C07": ("new predicate name is fresh", "every remembered name was handed out")}),
     Rule("C09.E.remove-unused", P, r_remove_unused),
